@@ -11,6 +11,33 @@ TB = ("Trusted: Lean 4.33 kernel; axioms of every property theorem printed per r
       "lxml/libxml2 and CPython are modelled, not verified. ")
 
 CLAIMED = {
+    "C16": dict(
+        text="Proof: tokenizer.py, parser.py and the validating AST constructors are modelled line by line in Lean "
+             "(Model/XPath/Tokenizer.lean, Parser.lean) with an explicit `.pyError` outcome at every Python index/lookup/assert "
+             "site and fuel for every loop; proved for every string: the model never yields `.pyError`, never runs out of fuel "
+             "(termination), every error carries a position, and that position lies inside the expression (Props/C16.lean). "
+             "Token classes, literal tokens, function arities, axis attribute names and node-type tests are regenerated from "
+             "/repo on every run. Tie to code: outcome class, position, rendered message and AST of the real parse() vs the "
+             "compiled model on token soups, truncations and mutations of valid expressions, bracket nests; cache-order "
+             "independence is exercised on the implementation (cold/warm lru caches, random orders, evaluate after parse).",
+        note=TB + "CPython resource limits (recursion depth for very deep bracket nesting) are outside the model; strings are "
+             "sequences of Unicode scalar values.",
+        technique="Lean 4 theorems over a line-by-line parser model (induction on fuel, token-tree well-formedness invariant) + translator-generated tables + differential correspondence",
+        design="3/C16",
+    ),
+    "C18": dict(
+        text="Proof: PrettySerializer (width 0) is modelled in Lean (Model/Pretty.lean: _serialize_tag, _handle_child_nodes, "
+             "_serialize_child_nodes, serialize_node, _serialize_text, both whitespace-legitimacy predicates, aligned "
+             "attributes) and proved to write, for every data-style tree, every non-empty indentation string and both "
+             "alignment settings, exactly what a straightforward recursive pretty printer writes (Props/C18.lean). Tie to "
+             "code: three-way exact string equality implementation = model = reference printer (+ an independent Python "
+             "reference printer) for generated data-style trees x indentation x alignment, from the root, from subtrees and "
+             "as a document.",
+        note=TB + "Data style as defined by `dataStyle` (nothing / one text / non-text nodes separated by single-space text "
+             "nodes, no xml:space). Prefix assignment is the C13 model.",
+        technique="Lean 4 theorem (mutual induction over nested trees) + differential correspondence impl vs Lean model vs reference printer",
+        design="3/C18",
+    ),
     "C17": dict(
         text="Proof: the recursion of compare_trees (class test, namespace, local name, TagAttributes.__eq__, len, zip of "
              "filtered children, leaf __eq__) is modelled in Lean (Model/Compare.lean) and proved, for all trees and all "
